@@ -124,8 +124,12 @@ var opNames = []string{
 	"src", "cat", "id", "cat2", "pick", "tuple", "nested", "rec", "field", "method", "iface", "ifaceval",
 	"global", "globalfn", "cloread", "cloparam", "clowrite", "funcval", "apply", "map", "slice", "chan",
 	"ptrparam", "phi", "loop", "constarg", "deferres", "sinkhelper", "cloretclo", "field2", "retstruct",
-	"sinkhelper2", "sinkclosure", "globalfn2", "boundmethod", "boundsink", "globallazy", "globalmulti",
+	"sinkhelper2", "sinkclosure", "globalfn2", "boundmethod", "globallazy", "globalmulti",
 }
+
+// opt-in operations (C03_OPS): shapes that hit an OPEN finding on the current tree.
+//   boundsink: backtrace point in a method reached through two method values -> F15b
+var optInOps = []string{"boundsink"}
 
 func (c *caseGen) op(name string) {
 	p := c.p
